@@ -11,6 +11,8 @@ CONSTANTS
   BurnVeto = TRUE
   BurnPrevote = TRUE
   BurnQuorum = FALSE
+  ParamKeys = {}
+  MaxParamChanges = 0
   Seeded = FALSE
   Defects = {"gov_plain_bank"}
 INVARIANT MInv_P
